@@ -514,7 +514,8 @@ class Reader:
                         self.default_ttl_known = True
                         self.tok.get_eol()
                     elif c == "$ORIGIN":
-                        self.current_origin = self.tok.get_name()
+                        # A relative argument is relative to the origin in force.
+                        self.current_origin = self.tok.get_name(self.current_origin)
                         self.tok.get_eol()
                         if self.zone_origin is None:
                             self.zone_origin = self.current_origin
